@@ -124,6 +124,10 @@ fn run_op(op: &str, sec: &[u8]) {
         "ed_add" => traced!(&mut slot, black_box(&sp1) + black_box(&sp2)),
         "ed_sub" => traced!(&mut slot, black_box(&sp1) - black_box(&sp2)),
         "ed_compress" => traced!(&mut slot, black_box(&sp2).compress()),
+        "ed_compress_sp1" => traced!(&mut slot, black_box(&sp1).compress()),
+        "ed_to_montgomery" => traced!(&mut slot, black_box(&sp1).to_montgomery()),
+        "ed_neg" => traced!(&mut slot, -black_box(&sp1)),
+        "ed_double" => traced!(&mut slot, black_box(&sp1) + black_box(&sp1)),
         "ed_ct_eq" => traced!(&mut slot, ct_eq_points(black_box(&sp1), black_box(&sp2))),
         "ed_mul_base" => traced!(&mut slot, EdwardsPoint::mul_base(black_box(&s1))),
         "ed_mul" => traced!(&mut slot, black_box(&pub_point) * black_box(&s1)),
